@@ -144,7 +144,10 @@ def cases(shard, nshards, seed, tier):
     for i in range(6 if tier == "quick" else 60):
         if mine():
             yield {"family": "subset", "i": i}
-    for kind in (["many-chains", "many-residues"] if tier == "quick" else ["many-chains", "many-residues", "many-atoms", "exactly-62-chains", "exactly-9999-residues"]):
+    for i in range(8 if tier == "quick" else 80):
+        if mine():
+            yield {"family": "derived", "i": i}
+    for kind in (["many-chains", "many-residues", "exactly-62-chains"] if tier == "quick" else ["many-chains", "many-residues", "many-atoms", "exactly-62-chains", "exactly-9999-residues"]):
         if mine():
             yield {"family": "limit", "kind": kind}
 
@@ -207,11 +210,45 @@ def run_case(case, rec):
                 serial += 1
                 rows.append(dict(_row(serial, a, f"M{c:03d}", 1, serial), model=2))
         df_all = p2.parse_cif_atoms(emit.emit_cif(rows))
+        if rng.random() < 0.7:
+            p2.can_write_pdb(df_all)  # the parent is checked first, as a caller deciding on the output format would
         keep_model = rng.choice([1, 1, 2])
         df = df_all[df_all["pdbx_PDB_model_num"] == keep_model].copy()
         df.attrs["format"] = "mmCIF"
         sub = [r for r in rows if r["model"] == keep_model]
         ctx["kept-model"] = keep_model
+        _drive(rec, df, sub, ctx, "mmCIF")
+        return
+    elif fam == "derived":
+        # (a) the parent does not fit, the derived sub-table does  (b) the parent fits, the derived copy does not
+        rng = random.Random(f"{seed}:C10:derived:{case['i']}")
+        base = gentab.random_table(rng, nmodels=1, nchains=3, wide=False, serial_start=0)
+        chains = []
+        for r in base:
+            if r["chain"] not in chains:
+                chains.append(r["chain"])
+        if case["i"] % 2 == 0:
+            parent = [dict(r) for r in base]
+            for r in parent:
+                if r["chain"] == chains[-1]:
+                    r["chain"] += "Z"
+            df_all = p2.parse_cif_atoms(emit.emit_cif(parent))
+            p2.can_write_pdb(df_all)
+            try:
+                p2.fit_to_pdb(df_all)
+            except Exception:
+                pass
+            df = df_all[df_all["auth_asym_id"] == chains[0]].reset_index(drop=True)
+            sub = [r for r in base if r["chain"] == chains[0]]
+            ctx["variant"] = "parent-does-not-fit/sub-table-fits"
+        else:
+            df_all = p2.parse_cif_atoms(emit.emit_cif(base))
+            p2.can_write_pdb(df_all)
+            df = df_all.copy()
+            df["auth_asym_id"] = df["auth_asym_id"].astype(str) + "Q"
+            df["auth_seq_id"] = (df["auth_seq_id"].astype(int) + 10000).astype(str).astype("category")
+            sub = [dict(r, chain=r["chain"] + "Q", resseq=r["resseq"] + 10000) for r in base]
+            ctx["variant"] = "parent-fits/derived-copy-does-not"
         _drive(rec, df, sub, ctx, "mmCIF")
         return
     elif fam == "corpus-file":
